@@ -178,34 +178,71 @@ theorem lex_close (st : LState) (t : Tok) (d : Char) (r : List Char) (hd : isDel
   | none => rfl
   | some p => obtain ⟨s', ts⟩ := p; simp
 
-theorem lex_inNum (acc t rest : List Char) (ht : t.all numChar = true) (hr : Delim rest) :
+theorem nstep_numChar {s s' : NSt} {ch : Char} (h : nstep s ch = some s') : numChar ch = true := by
+  have h0 : numChar '0' = true := by decide
+  cases s <;> simp only [nstep] at h <;> (repeat' split at h) <;>
+    simp_all [numChar] <;> (rename_i hh; rcases hh with hh | hh <;> simp [hh])
+
+theorem nrun_numChar {s s' : NSt} {t : List Char} (h : nrun s t = some s') :
+    t.all numChar = true := by
+  induction t generalizing s with
+  | nil => rfl
+  | cons x r ih =>
+    simp only [nrun] at h
+    split at h
+    · rename_i s1 h1
+      simp [nstep_numChar h1, ih h]
+    · cases h
+
+theorem numOk_shape {t : List Char} (h : numOk t = true) :
+    ∃ x r, t = x :: r ∧ numStart x = true ∧ r.all numChar = true := by
+  cases t with
+  | nil => simp [numOk, nrun, naccept] at h
+  | cons x r =>
+    refine ⟨x, r, rfl, ?_, ?_⟩
+    · have h0 : numStart '0' = true := by decide
+      by_cases h1 : x = '-'
+      · simp [numStart, h1]
+      · by_cases h2 : x = '0'
+        · rw [h2]; exact h0
+        · by_cases h3 : isDigit x = true
+          · simp [numStart, h3]
+          · simp [numOk, nrun, nstep, h1, h2, h3] at h
+    · simp only [numOk] at h
+      split at h
+      · rename_i s1 h1
+        have := nrun_numChar h1
+        simp only [List.all_cons, Bool.and_eq_true] at this
+        exact this.2
+      · cases h
+
+theorem lex_inNum (acc t rest : List Char) (ht : t.all numChar = true)
+    (hk : numOk (acc.reverse ++ t) = true) (hr : Delim rest) :
     lexGo c (.inNum acc) (t ++ rest) = addT [.num (acc.reverse ++ t)] (lexGo c .idle rest) := by
   induction t generalizing acc with
   | nil =>
+    simp only [List.append_nil] at hk
     cases rest with
-    | nil => simp [lexGo, finish]
+    | nil => simp [lexGo, finish, hk]
     | cons d r =>
       have hd : isDelim d = true := hr d rfl
       rw [List.nil_append, lex_close c _ (.num acc.reverse) d r hd]
       · simp
-      · simp [step, isDelim_not_numChar hd]
+      · simp [step, isDelim_not_numChar hd, hk]
   | cons x r ih =>
     simp only [List.all_cons, Bool.and_eq_true] at ht
     rw [List.cons_append, lexGo_cons]
     simp only [step, ht.1, if_true]
-    rw [ih _ ht.2]
+    rw [ih (x :: acc) ht.2 (by simpa using hk)]
     simp
 
 theorem lex_num (t rest : List Char) (ht : numOk t = true) (hr : Delim rest) :
     lexGo c .idle (t ++ rest) = addT [.num t] (lexGo c .idle rest) := by
-  cases t with
-  | nil => simp [numOk] at ht
-  | cons x r =>
-    simp only [numOk, Bool.and_eq_true] at ht
-    rw [List.cons_append, lexGo_cons]
-    simp only [step, idleStep_numStart ht.1]
-    rw [lex_inNum c [x] r rest ht.2 hr]
-    simp
+  obtain ⟨x, r, rfl, hx, hrr⟩ := numOk_shape ht
+  rw [List.cons_append, lexGo_cons]
+  simp only [step, idleStep_numStart hx]
+  rw [lex_inNum c [x] r rest hrr (by simpa using ht) hr]
+  simp
 
 theorem lex_inWord (acc w rest : List Char) (k : Kw) (hw : w.all isLetter = true)
     (hk : kwOf c (acc.reverse ++ w) = some k) (hr : Delim rest) :
